@@ -339,6 +339,29 @@ func sqlBoundaryInputs() []string {
 				add(strings.ReplaceAll(t, "W", "sel"+r+"ct"))
 			}
 		}
+		// (n) words made of letters that shrink when upper-cased, with '.' or a back-tick at or near the end
+		for _, r := range []string{"\xc4\xb1", "\xc5\xbf", "\xe1\xbe\xbe"} {
+			for _, w := range []string{r + r, "a" + r + "b" + r, "kald" + r + "rd" + r + "m", r + r + r + r, "select" + r + r} {
+				for _, t := range []string{"W.", "W. ", "W.W", "W`", "W`x`", "x W.1", "W.a.b", "1 W. 2"} {
+					add(strings.ReplaceAll(t, "W", w))
+				}
+			}
+		}
+		// (o) multi-byte spaces (U+00A0 as C2 A0, U+3000, U+2003) right after words and blanks
+		for _, sp := range []string{"\xc2\xa0", "\xe3\x80\x80", "\xe2\x80\x83", "\xc2", "\xc2\xa0\xc2\xa0"} {
+			for _, t := range []string{"1 unionSselect 2", "1 orS1=1", "1 S or 1=1", "1 or S union", "selectS1", "x'SorS'1'='1", "1Sunion selectS1", "fooS", "S1", "1 andSsleep(5)"} {
+				add(strings.ReplaceAll(t, "S", sp))
+			}
+		}
+		// (p) typographic / fullwidth look-alikes of quotes, comment markers and separators
+		for i, a := range attackInputs() {
+			if i%97 == 0 {
+				for k := 0; k < 3; k++ {
+					add(gen.Confuse(a, k))
+				}
+				add(gen.Fullwidth(a))
+			}
+		}
 		// (m) a quote beyond the clip followed by gated tails (state carried between the readings of one call)
 		for n := 28; n <= 40; n++ {
 			w := strings.Repeat("a", n)
